@@ -35,13 +35,13 @@ ROWS = {
   text='Lean theorems for all headers/payloads: both checksums make the byte sums zero, the frame carries exactly the '
        'given fields (parsed back by an independent wire specification), rx_filter accepts iff checksums verify and '
        'netfn+1/cmd/LUN/(seq)/enabled address checks match, hence every single-byte corruption of an accepted reply '
-       'is rejected; the same clause through the LAN transport, which may unwrap before the filter sees a frame: whatever the transport accepts is intact as received, so any single corrupted byte of a plain or wrapped reply (any wrapper byte, any depth) is dropped (transport_single_byte_corruption_rejected; counter-example theorem for the source before fix e1dd889). The checksum arithmetic, header encode/decode expressions and the list of filter checks are '
+       'is rejected; the same clause through the LAN transport, which may unwrap before the filter sees a frame: whatever the transport accepts is intact as received, so any single corrupted byte of a plain or wrapped reply (any wrapper byte, any depth) is dropped (transport_single_byte_corruption_rejected; counter-example theorem for the source before fix e1dd889); the RESPONSE frames (from_req_header + IpmbHeaderRsp.encode + encode_ipmb_msg, the BMC emulation\'s reply path) are the figure\'s response to the request and pass the request\'s filter (response_frame_is_figure, response_frame_passes_filter; as shipped response_frame_asShipped_rejected); 24 theorems. The checksum arithmetic, header encode/decode expressions and the list of filter checks are '
        'regenerated from the AST of pyipmi/interfaces/ipmb.py on every run.',
   note='translator harness/translate/ipmb.py; control flow around the generated expressions (Model/Ipmb.lean) is '
        'hand-written and tied by a differential run (all 32 flag settings, every single-byte corruption of sampled replies; every single-byte corruption of plain and 1..3-fold wrapped replies through the real Rmcp)',
   tech='Lean 4 proof (byte-sum algebra, iff characterisation of the filter) + AST translator + differential correspondence'),
  'C04': dict(
-  text='32 Lean theorems over all event lists, budgets, quirks and histories - the socket\'s receive queue included - for '
+  text='33 Lean theorems over all event lists, budgets, quirks and histories - the socket\'s receive queue included - for '
        'RMCP, ipmb-dev and Aardvark (with is_ipmc_accessible): attribution through intact Send Message responses '
        'only; a CompletionCodeError only from the outstanding Send Message\'s own response; sequence numbers distinct '
        '(probes too); a match behind <= max_retries unrelated frames or time-outs is found for every request incl. '
@@ -67,7 +67,7 @@ ROWS = {
        'cross-checked against a Lean RFC 1321 implementation; CPython struct/array semantics modelled',
   tech='Lean 4 proof (byte-level refinement to the packet figure) + translator + differential correspondence through a fake socket'),
  'C06': dict(
-  text='27 Lean theorems about the model of establish_session / the retry loop / requests / close_session against a '
+  text='36 Lean theorems about the model of establish_session / the retry loop / requests / close_session against a '
        'reference IPMI v1.5 BMC session state machine: handshake order against ANY peer (ping, Get Channel Auth '
        'Capabilities, Get Session Challenge, Activate Session, Set Session Privilege Level; each at most '
        'max_retries+1 times); for every conforming BMC configuration, every number of requests n and every loss '
@@ -78,7 +78,7 @@ ROWS = {
        'authentication choice is the strongest of offered-and-implemented for every capability byte, over the '
        'preference tuple and the implemented set regenerated from messaging.py / rmcp.py on every run; the '
        'statement-level shape of establish_session / close_session / the request builders is re-read from the AST '
-       '(Gen/SessionShape.lean, theorem handshake_shape); the clean-up close after a fault (silence over the whole retry budget or an error completion code) at ANY handshake step returns, sends Close Session for the granted id iff one was granted and leaves no session open on the BMC (close_after_failed_open, close_after_failed_open_bmc); when the BMC offers no authentication type nothing follows the capabilities exchange and the outcome is NotSupportedError (auth_none_offered_no_request); as-shipped counter-example theorems for both.',
+       '(Gen/SessionShape.lean, theorem handshake_shape); the clean-up close after a fault (silence over the whole retry budget or an error completion code) at ANY handshake step returns, sends Close Session for the granted id iff one was granted and leaves no session open on the BMC (close_after_failed_open, close_after_failed_open_bmc); when the BMC offers no authentication type nothing follows the capabilities exchange and the outcome is NotSupportedError (auth_none_offered_no_request); as-shipped counter-example theorems for both; histories on REUSED Rmcp / Session objects: after any history of failed / successful attempts and closes a handshake starts from a cleared Session (establish_forgets_history, lifecycle_after_any_history, close_after_failed_open_any_history; the reference BMC demands the null sequence number on Activate Session), and at most one keep-alive thread exists, none during a handshake and none after close (keepalive_at_most_one, keepalive_none_during_handshake, keepalive_none_after_close); counter-examples for the source before fixes 7494b19 / 5f3973d.',
   note='translators harness/translate/rmcp.py, session.py; hand-written model Model/Session.lean tied per datagram byte for byte (the '
        'real Rmcp talks through a fake socket to the compiled Lean reference BMC, the same script is replayed to the '
        'model); reference BMC Spec/BmcSession.lean is a reading of IPMI v1.5 6.11-6.12; digest function is a parameter; '
@@ -90,14 +90,14 @@ ROWS = {
        'hop, right bridge address, channel, tracking bit, valid checksums) whose innermost frame is the original '
        'request; unwrap(wrap reply) = reply for every depth and every inner command but App/34h (34h in other NetFns included); a damaged wrapper is never unwrapped; the transport unwraps only the intact response to its own outstanding Send Message; un-bridged requests never unwrap; late or foreign acks are never raised (counter-examples for the source before fix e1dd889); a failing layer yields its completion code; a bare '
        'acknowledgement is never returned and makes the transport read on; after ANY history of re-routings of one Target the '
-       'request traverses exactly the hops of the path configured last (reroute_peel_all).',
+       'request traverses exactly the hops of the path configured last (reroute_peel_all); on every native transport: RMCP emits the nest (any depth), ipmb-dev and Aardvark (which do not bridge) emit the plain request for a local target or refuse with NotSupportedError before anything is written (routed_request_rmcp_is_nest, routed_request_i2c_nest_or_nothing, stated over C04\'s step models via Lemmas/LoopsBridge; i2c_routing_ignored_asShipped_counterexample); 28 theorems.',
   note='Model/Bridge.lean hand-written on top of the generated C03 framing model; Send Message ids and channel-byte bit '
        'positions regenerated from the live SendMessageReq class; tie by differential run (depth 1..8)',
   tech='Lean 4 proof (induction on the routing list) + translator + differential correspondence'),
  'C10': dict(
   text='Lean theorems for every device content, area size, offset, length and per-request limit >= 2: read_fru_data '
        'returns exactly the stored slice, the full read the whole area, every request names the caller\'s FRU id, '
-       'write stores the bytes contiguously and raises on a short acknowledgement; a write of which the first k bytes were stored before it failed, resumed from offset+k, leaves what one complete write stores (write_resumed_exact); all write theorems for every write_length 1..255 (write_*_any_chunk; the harness assigns ipmi.write_length: 8 named sizes + random, all in thorough) and an acknowledgement larger than the chunk raises; write clause at full strength: for any peer and any chunk size the first deviating acknowledgement k ends the write with an exception after exactly k+1 requests whatever later acknowledgements would be (write_raises_at_first_count_mismatch, write_stops_at_first_bad_answer, write_all_acked_returns); 22 theorems. The loops of fru.py are translated '
+       'write stores the bytes contiguously and raises on a short acknowledgement; a write of which the first k bytes were stored before it failed, resumed from offset+k, leaves what one complete write stores (write_resumed_exact); all write theorems for every write_length 1..255 (write_*_any_chunk; the harness assigns ipmi.write_length: 8 named sizes + random, all in thorough) and an acknowledgement larger than the chunk raises; write clause at full strength: for any peer and any chunk size the first deviating acknowledgement k ends the write with an exception after exactly k+1 requests whatever later acknowledgements would be (write_raises_at_first_count_mismatch, write_stops_at_first_bad_answer, write_all_acked_returns); every optional-argument form of read_fru_data (read_exact_any_range); an area the common header declares absent yields None after the header read alone with every request inside bytes 0..7 (absent_area_is_none, absent_multirecord_is_none), a present info / multirecord area yields exactly the stored area (present_area_exact, present_multirecord_exact); counter-examples for the source before fix 319cfb8; 33 theorems. The loops of fru.py are translated '
        'from the AST on every run (Gen/Loops10.lean) and run against a Lean reference device.',
   note='translator harness/translate/loops10.py; reference device Spec/FruDevice.lean (rejects or serves short); area '
        'parsers are C15; differential run compares outcome, bytes, full request trace and final device state; history stream: every single case again as 2nd operation of one Ipmi object, directed and random sequences of 2..6 operations incl. refused reads and writes that fault at chunk k (Spec.Fru.respondF) and are resumed, each step judged against the contents at its start and compared with the stateless model',
@@ -118,7 +118,7 @@ ROWS = {
  'C12': dict(
   text='Lean theorems for every log, partial-read limit and script of concurrent changes: entries are returned exactly, '
        'once each, in order; an empty log gives nothing; get-and-clear returns the entry that was deleted, deletes '
-       'under the reservation of the read and repeats both steps when the reservation is cancelled in between (get_and_clear_atomic for every budget without a fuel hypothesis; get_and_clear_repeats_both_steps: fewer changes than rounds and the record still present => success); the decoded SelEntry equals the view of IPMI tables 32-1..3 for system events (entry_view_system, entry_view_oem, entry_decoding_strict); 13 theorems.',
+       'under the reservation of the read and repeats both steps when the reservation is cancelled in between (get_and_clear_atomic for every budget without a fuel hypothesis; get_and_clear_repeats_both_steps: fewer changes than rounds and the record still present => success); the decoded SelEntry equals the view of IPMI tables 32-1..3 for system events (entry_view_system, entry_view_oem, entry_decoding_strict); a device that truncates instead of refusing is read exactly (truncating_device_read_exactly); 14 theorems.',
   note='translator harness/translate/loops10.py (sel.py loops); reference device Spec/SelDevice.lean; tie by '
        'differential run (outcome, record bytes, request trace, final device state); every returned SelEntry judged attribute by attribute; one-object histories; variant (length floor, retry budget) read from the source and probed; OEM record attributes beyond data / id / type are not judged',
   tech='Lean 4 proof (refinement to the log as a list) + AST translator + differential correspondence against a reference device'),
@@ -126,7 +126,7 @@ ROWS = {
   text='Lean theorems for EVERY outcome sequence and budget: chunk fetching, repository clearing and send_message issue '
        'a bounded number of requests, use the most recent reservation, initiate before polling, report success iff '
        'the last status says complete, propagate unexpected codes, end in RetryError on exhaustion; send_message '
-       'repeats only after node busy; also above the chunk helper: for every transport, every Get (Device) SDR of a record read or a listing carries the id returned by the most recent Reserve of that store (the caller\'s before the first; fresh_reservation_data / _listing / _every_get, counter-example stale_after_renewal_as_shipped); <= 161 exchanges per record; the two loops of pyipmi/sel.py: get_sel_entry <= 33 requests for any script and RetryError after 17 refusals, get_and_clear_sel_entry <= 35 requests per round within its budget (unbounded before fixes 8f8257b / 934f8f8: counter-example theorems sel_entry_unbounded_as_shipped, sel_get_and_clear_unbounded_as_shipped); a refused Reserve (first or renewal) is propagated and is the last call; source_variant equates the variants read from today\'s source with the intended ones; 37 theorems. Constants, loop tests and call sites are re-read from helper.py/__init__.py on '
+       'repeats only after node busy; also above the chunk helper: for every transport, every Get (Device) SDR of a record read or a listing carries the id returned by the most recent Reserve of that store (the caller\'s before the first; fresh_reservation_data / _listing / _every_get, counter-example stale_after_renewal_as_shipped); <= 161 exchanges per record; the two loops of pyipmi/sel.py: get_sel_entry <= 33 requests for any script and RetryError after 17 refusals, get_and_clear_sel_entry <= 35 requests per round within its budget (unbounded before fixes 8f8257b / 934f8f8: counter-example theorems sel_entry_unbounded_as_shipped, sel_get_and_clear_unbounded_as_shipped); a refused Reserve (first or renewal) is propagated and is the last call; source_variant equates the variants read from today\'s source with the intended ones; the SEL script alphabet is "completed with k bytes, 0 <= k <= requested": bounded against ANY peer (sel_entry_bounded_any_peer), an empty completed answer ends in RetryError (sel_entry_empty_answer_gives_up; before fix 3d41463 sel_entry_unbounded_on_empty_answers); 43 theorems. Constants, loop tests and call sites are re-read from helper.py/__init__.py on '
        'every run.',
   note='translator harness/translate/loops11.py; Model/Retry.lean hand-written, tied by depth-first exploration of the '
        'outcome tree (depth 5/8, budgets 1..6) on the real helpers with scripted callables; time.sleep recorded; Model/SdrXfer.lean on a scripted byte-level device, renewed-id variant probed',
